@@ -4,7 +4,7 @@ from ..streammodel import sc_model, drg_model
 from .c03 import VARIANTS
 
 ID = 'C04'
-RULE = ('one record per history of {process, process_mut, seek/counter preset, clone} on a cipher context or {bytes<N>, fill_bytes, fill_slice, '
+RULE = ('one record per history of {process, process_mut, seek/counter preset, clone, clone_from} on a cipher context or {bytes<N>, fill_bytes, fill_slice, '
         'u32, u64} on the DRG; model = (key, nonce, absolute byte position); every output must equal input XOR keystream[pos..pos+len] '
         '(DRG: keystream only, whatever the destination held); involution histories re-encrypt the oracle ciphertext; distinct = '
         '(variant, sequence of op kinds with offset/length classes); in-place calls also go through arbitrarily aligned sub-slices of one buffer')
@@ -12,7 +12,7 @@ ASSUMPTIONS = ['same keystream models as C03']
 THOROUGH_ROUNDS = 40   # thorough tier: generator passes with derived seeds (runner.gen_rounds)
 EXTRA_CFGS = ['f32']   # the workload is also executed by the force-32bits build of the library; results must not change (runner.standard_check)
 FLOORS = {'evaluations': 2500, 'distinct': 1500,
-          'coverage': {'pm:off=mid:len>+64rem': 10, 'p:off=63:len=rem': 3, 'seek:off=mid': 10, 'clone:off=mid': 10, 'pms:short-piece-at-unaligned-address': 50,
+          'coverage': {'pm:off=mid:len>+64rem': 10, 'p:off=63:len=rem': 3, 'seek:off=mid': 10, 'clone:off=mid': 10, 'clone_from:dst-off=0:src-off=mid': 3, 'clone_from:dst-off=mid:src-off=mid': 3, 'pms:short-piece-at-unaligned-address': 50,
                        'drg:fb:prior=nonzero:cross': 10, 'drg:fs:prior=nonzero:within': 10}}
 NS = [0, 1, 3, 4, 7, 8, 16, 31, 32, 33, 63, 64, 65, 100, 127, 128, 129, 255]
 LENS = [0, 1, 63, 64, 65, 100, 128, 129]
@@ -62,6 +62,9 @@ def history(rng, v, nsteps):
                 rng.choice([0, 1, 5, 0xffffffff, (rng.below(1 << 32) << 32) | 0xffffffff, (1 << 64) - 1, rng.below(1 << 64)])
             steps.append('%s.%d.%d' % ('s' if has_seek else 'S', ob, n))
             pos[ob] = 64 * n
+        elif r < 90 and len(live) > 1:
+            src = rng.choice([x for x in live if x != ob])
+            steps.append('cf.%d.%d' % (ob, src)); pos[ob] = pos[src]       # ob.clone_from(&src)
         elif nobj < 4:
             steps.append('c.%d.%d' % (ob, nobj)); pos[nobj] = pos[ob]; live.append(nobj); nobj += 1
     return steps
